@@ -250,6 +250,68 @@ def rule_destroy(S):
          loc=da.loc, path=order['path'])
 
 
+def rule_root(S):
+    facts = S.facts()
+    S.rule('R-ROOT', 'a tree\'s root pointer is overwritten with nullptr (tree_instance::store_root_ptr(nullptr)) only on '
+                     'paths where the root loaded from that same tree is established null or was destroyed and deleted: '
+                     'dropping the last reference to a live root (e.g. the empty, deleted-flagged layer-0 border, which '
+                     'is never retired) leaks it')
+    n = 0
+    for f in facts.functions.values():
+        if f.is_lambda or not any(is_call(x, cq=Y + 'tree_instance::store_root_ptr') and
+                                  R.const_of(f, call_args(f, x)[0]) == 'null' for x in f.all_nodes()):
+            continue
+        sites = {}
+        loads = {}   # var id -> tree term
+        for x in f.all_nodes():
+            if x['k'] == 'DeclStmt':
+                for v in x.get('vars', []):
+                    if 'init' in v:
+                        i = f.strip(v['init'], casts=True)
+                        if i is not None and is_call(i, cq=Y + 'tree_instance::load_root_ptr'):
+                            loads[v['id']] = term(f, call_recv(f, i))
+        ptrs = tuple(v.split('@')[0] for v in loads)
+
+        def step(ctx, nd, st):
+            fs, freed = st
+            fs = R.track_assign(f, nd, fs, facts)
+            if nd['k'] == 'CXXDeleteExpr':
+                v = root_var(f, f.ch(nd)[0])
+                if v in loads:
+                    return (fs, freed | {v})
+            if nd['k'] == 'DeclStmt':
+                for v in nd.get('vars', []):
+                    if v['id'] in loads:
+                        freed = freed - {v['id']}
+                return (fs, freed)
+            if is_call(nd, cq=Y + 'tree_instance::store_root_ptr') and R.const_of(f, call_args(f, nd)[0]) == 'null':
+                t = term(f, call_recv(f, nd))
+                cands = [v for v, tt in loads.items() if tt == t]
+                e = sites.setdefault(short_loc(nd), {'ok': True, 'path': None, 'why': ''})
+                ok = bool(cands) and any(v in freed or R.facts_get(fs, v) == 'null' for v in cands)
+                if not ok:
+                    e['ok'] = False
+                    e['path'] = e['path'] or ctx.witness()
+                    e['why'] = 'no root was loaded from this tree' if not cands else \
+                        'the loaded root is neither null nor deleted on this path'
+            if nd['k'] == 'ReturnStmt':
+                return None
+            return (fs, freed)
+
+        def branch(ctx, blk, idx, st):
+            fs2 = R.refine(f, blk, idx, st[0], ptrs=ptrs)
+            return None if fs2 is None else (fs2, st[1])
+
+        Explorer(f, step, branch).run((frozenset(), frozenset()))
+        for loc, e in sorted(sites.items()):
+            n += 1
+            S.ob('R-ROOT', fname(f), 'root pointer cleared at ' + loc, e['ok'],
+                 'the old root was released (or there was none)' if e['ok'] else
+                 'the root pointer is cleared although ' + e['why'] + ': the node becomes unreachable without being freed',
+                 loc=loc, path=e['path'])
+    S.require('R-ROOT', 'root-pointer clearing sites', n, 3)
+
+
 def _loop_bound(f, names, facts):
     for b, blk in f.blocks.items():
         if blk.term and blk.term.get('k') == 'ForStmt' and 'cond' in blk.term:
@@ -277,3 +339,4 @@ def run(S):
     rule_swap(S)
     rule_drain(S)
     rule_destroy(S)
+    rule_root(S)
